@@ -938,6 +938,18 @@ proof fn theorem_index_row_is_break_count(idx: Seq<TextSize>, b: Seq<u8>, o: int
     }
 }
 
+/// THEOREM (line count, C15): a well-formed line index has one entry more than the text has line breaks
+/// (CR, LF, CRLF once each) - "the number of lines equals the number of line breaks plus one".
+proof fn theorem_line_count(idx: Seq<TextSize>, b: Seq<u8>)
+    requires index_wf(idx, b),
+    ensures idx.len() == 1 + nbe(b, b.len() as int),
+{
+    let last = idx.len() - 1;
+    if last >= 1 { assert(is_break_end(b, idx[last].raw as int)); }
+    assert(is_row_of(idx, b.len() as int, last));
+    theorem_index_row_is_break_count(idx, b, b.len() as int, last);
+}
+
 /// Vacuity guard for the theorem: rows other than the first exist.
 proof fn canary_same_line(idx: Seq<TextSize>, b: Seq<u8>, st: LinearLocatorState, o: int, r: int)
     requires index_wf(idx, b), st_wf_at(b, st, o), is_row_of(idx, o, r),
